@@ -14,6 +14,18 @@ CHECKS = {
  "C17": dict(cat="proof", tech="symbolic tiling of the abstract write log (frontier argument, per-element chaining for loops), def-before-use on buffer bytes, wrapper view restriction",
    text="The write log of every write_into_unchecked, under SIZE = Ok(n), is shown to tile [0,n) for all configurations: regions are ordered by entailment, per-element regions of loops chain (end of element k = start of element k+1, via prefix-sum step facts), dyn members are regions of their announced size; no byte of the output buffer is read before the same call wrote it (so the result is independent of prior contents); every region lies inside [0,n); the write_into wrappers pass exactly buf[..n] on and perform no write on any failing path.",
    note=TB, ref="§4 C17"),
+ "C07": dict(cat="translation_validation", tech="abstract write log resolved last-writer-wins and read back at symbolic positions; compared row by row with an RFC layout table; region tree for variable-stride structures",
+   text="For every builder the final memory of WRITE under SIZE = Ok(n) is read back byte by byte at fixed and symbolic positions (element index k, offset j) and entailed equal to an independent image written from the RFC figures: V=2, P bit iff padding, 5-bit count/subtype/FMT, packet type, length field = n/4-1 without truncation, big-endian SR/RR/report-block/APP/BYE/feedback/FIR fields, SLI 13/13/6 packing (bit provenance), RPSI PB/PT/zero fill, SDES item type/length/prefix/value, SDES null terminator and zero fill to 32 bits, trailer zeros ending in the count; SDES packet, chunk and compound layouts through the region tree; NACK words are (PID, BLP) big-endian at 4k.",
+   note=TB + "the RFC transcription (spec.py, rules/c07.py). Not decided: NACK uses the minimum number of words. Open finding D11 (length field truncates above 65536 words) is reported as KNOWN-FINDING.", ref="§4 C07"),
+ "C14": dict(cat="proof", tech="summaries of the compound builder under the dyn member contract (prefix-sum size, per-member views, region tiling); forwarding arms of the PacketBuilder enum with member methods uninterpreted",
+   text="CompoundBuilder's size is the prefix sum of the members' announced sizes, accepted iff every member is valid and no member but the last requests padding (both directions from the outcome path conditions and the quantified loop facts); each member is handed a view of exactly its announced size and the output is exactly the members' images in order; get_padding is the last member's; each of PacketBuilder's 3x8 arms calls the same method of the wrapped builder on the same buffer.",
+   note=TB + "parse-back of the built compound is the composition of C07 (member headers describe their own size), C11 and C12.", ref="§4 C14"),
+ "C16": dict(cat="other", tech="SIZE summaries (guarded outcomes) checked against an independent limits table by entailment: soundness of every Err outcome, completeness of every Ok outcome",
+   text="Proof-style check with one recorded open finding: every Err outcome of every calculate_size must be for a rule of the limits table that its path condition entails to be violated, with an admissible variant and the offending value as payload; every Ok outcome must entail every rule, including element rules through the containers' quantified facts, the FCI kind, non-last compound padding and the 16-bit length field limit. All obligations are discharged except the total-size limit for five builders (D11, KNOWN-FINDING), hence category 'other' rather than 'proof' until that is repaired.",
+   note=TB + "the limits table in rules/c16.py / spec.py.", ref="§4 C16"),
+ "C20": dict(cat="proof", tech="SET summaries of builder methods (abstract interpretation); frame/rebuild rules over the ADT field tables; collection-idiom recognition via std contracts; effect check",
+   text="Every by-value builder method is summarised: each result field is either the same field of self or is determined by the arguments (setters of different fields commute, repeated setters keep the last value, *_owned/into_owned rebuilds lose nothing); list adders push exactly the argument, NACK inserts into an ordered set, FIR add_ssrc is insert-or-overwrite with the same value; builder()/builder_owned() agree on all plain fields and differ only in the wrapper variant, whose as_ref/deref return the wrapped builder in both variants; size/write take &self, no builder field has interior mutability, and writers touch only the output buffer.",
+   note=TB + "std collection contracts (Vec::push appends, BTreeSet ordered/idempotent, HashMap entry API).", ref="§4 C20"),
  "C08": dict(cat="proof", tech="path-condition entailment of RFC framing facts on every accepting path; header accessor summaries vs RFC header table",
    text="On every Ok outcome of every typed parser, of the generic parser per dispatched variant, and of the unknown parser, the path condition entails (for all inputs) minimum size, version 2, the RFC packet type, len = 4*(length field+1), padding bit => non-zero final byte, and count-implied body size, with all constants taken from an independent RFC table; version/type_/count/subtype/length/padding accessor summaries are entailed equal to those header values.",
    note=TB + "RFC constants in rtcpverif/spec.py.", ref="§4 C08"),
